@@ -55,7 +55,7 @@ static const struct monitor *const ALLMONS[] = {
 
 static const struct { const char *pfx; enum kind k; } KTAB[] = {
     { "hold", K_HOLD }, { "tadd", K_TADD }, { "tset", K_TSET }, { "tcancel", K_TCANCEL },
-    { "tclear", K_TCLEAR }, { "yield", K_YIELD }, { "resume", K_RESUME }, { "waitp", K_WAITP },
+    { "tclro", K_TCLEARO }, { "tclear", K_TCLEAR }, { "yield", K_YIELD }, { "resume", K_RESUME }, { "waitp", K_WAITP },
     { "waite", K_WAITE }, { "int", K_INT }, { "stopself", K_STOPSELF }, { "stop", K_STOP },
     { "exit", K_EXIT }, { "return", K_RETURN }, { "prio", K_PRIO }, { "racq", K_RACQ },
     { "rpre", K_RPRE }, { "rrel", K_RREL }, { "pacq", K_PACQ }, { "ppre", K_PPRE }, { "prel", K_PREL },
@@ -354,7 +354,7 @@ static bool enabled(int p, const struct opdef *od)
         return q != p && q < D.P && D.pstate[q] != PS_CREATED;
     case K_WAITE:
         return q < NENVEV && D.envev[q] != 0 && cmb_event_is_scheduled(D.envev[q]);
-    case K_INT: case K_STOP:
+    case K_INT: case K_STOP: case K_TCLEARO:
         return q != p && q < D.P && proc_started(q);
     case K_PRIO:
         return q < D.P && D.inited[q];
@@ -670,6 +670,11 @@ static int64_t do_op(int p, const struct opdef *od)
     case K_TCLEAR:
         cmb_process_timers_clear(me);
         D.ntimers[p] = 0;
+        break;
+    case K_TCLEARO:
+        /* somebody else clears the timers of a (typically suspended) process */
+        cmb_process_timers_clear(&D.procs[q]);
+        D.ntimers[q] = 0;
         break;
     case K_YIELD:
         ret = cmb_process_yield();
